@@ -212,3 +212,12 @@ func Parallel(n, w int, fn func(idx int)) {
 	}
 	wg.Wait()
 }
+
+// Pick2 chooses deterministically between two alternatives from a key (for derived configuration values that must not
+// consume PRNG state).
+func Pick2[T any](key int, a, b T) T {
+	if key%2 == 0 {
+		return a
+	}
+	return b
+}
